@@ -146,3 +146,22 @@ def _():
             (MM, "            f.write (m.as_cmdline (azi = azimuth, zen = zenith))\n",
              "            f.write (m.as_cmdline (azi = azimuth, zen = zenith))\n"
              "            f.write ('# written in %s\\n' % os.getcwd ())\n")]
+
+
+@planted('report_header_strftime_date', ['H5', 'H6', 'H1', 'H2', 'H3', 'H4', 'H7'], 'needs the complete clock seam (time.strftime)')
+def _():
+    return [(MM, "        r.append (' ' * 35 + 'MININEC')\n",
+             "        r.append (' ' * 35 + 'MININEC')\n        r.append (' ' * 30 + time.strftime ('%Y-%m-%d'))\n")]
+
+
+@planted('report_header_hostname', ['H5', 'H6', 'H1', 'H2', 'H3', 'H4', 'H7'], 'needs the seeded machine identity')
+def _():
+    return [(MM, "import sys\nimport copy\n", "import sys\nimport socket\nimport copy\n"),
+            (MM, "        r.append (' ' * 35 + 'MININEC')\n",
+             "        r.append (' ' * 35 + 'MININEC')\n        r.append (' ' * 30 + 'ON ' + socket.gethostname ())\n")]
+
+
+@planted('geometry_cache_modified_in_place', ['H1', 'H2', 'H3', 'H4'], 'seen directly through the num.geo.* observables')
+def _():
+    return [(MM, "        f3   = pv.sign * self.w * pv.seg_len / 2\n",
+             "        f3   = pv.sign\n        f3  *= self.w\n        f3   = f3 * pv.seg_len / 2\n")]
